@@ -33,6 +33,8 @@ var c20Payloads = []struct{ Name, V string }{
 	{"template-action", `{{.}}{{template "footer.html"}}{{printf "%s" .Message}}`},
 	{"comment-breakout", `--><script>alert(1)</script><!--`},
 	{"newline-and-tab", "line1\r\n<b>bold</b>\tend"},
+	{"message-with-url", "session expired, sign in again at https://login.evil.test/sso?next=1 or http://evil.test"},
+	{"brace-prefixed-text", "{access_denied} {\"a\":1} (truncated"},
 }
 
 const c20Benign = "benign-value-123"
@@ -278,7 +280,7 @@ func init() {
 	fw.Register(&fw.Check{
 		ID:    "C20",
 		Level: "exploration",
-		Rule: "full product of 12 payloads (script element, attribute break-out with double and single quotes, </title> break-out, javascript: URL, entity-encoded markup, UTF-7, overlong UTF-8, NUL, template actions, comment break-out, CR/LF/TAB) x 14 request-controlled positions on the real services " +
+		Rule: "full product of 14 payloads (URL-bearing text, brace-prefixed text, script element, attribute break-out with double and single quotes, </title> break-out, javascript: URL, entity-encoded markup, UTF-7, overlong UTF-8, NUL, template actions, comment break-out, CR/LF/TAB) x 14 request-controlled positions on the real services " +
 			"(proxy callback `error`; authenticator callback `error`, sign-in page redirect_uri query / raw path / host label / state and parameter names, sign-out page redirect_uri and session email, sign-in / sign-out page with a javascript:-scheme redirect_uri whose host is in domain, sign_in / start / client_id / redeem error responses) x {HTML, Accept: application/json (or XHR) where the position has a JSON rendering}; " +
 			"oracle: the HTML token structure (element names and attribute names, via golang.org/x/net/html's tokenizer) equals that of the same page rendered with a benign value, no URL attribute carries a script URL, and JSON bodies parse; " +
 			"distinct_nontrivial = distinct (position, payload, json, status, reflected?)",
